@@ -350,15 +350,15 @@ func newWorld(rng *rand.Rand, id string) *world {
 	mk := func(commit, ack []byte) *packet { return mkSlot(commit, ack, 0) }
 	v0 := gen32(rng)
 	w.packets = []*packet{
-		mk(v0, gen32(rng)),                            // P0 everywhere
-		mk(genLeadingZero(rng), genLeadingZero(rng)),  // P1 leading-zero hashes, everywhere
-		mk(gen32(rng), gen32(rng)),                    // P2 commit only from stBoundary on, never acked
-		mk(gen32(rng), gen32(rng)),                    // P3 in stOld only (deleted later)
+		mk(v0, gen32(rng)),                             // P0 everywhere
+		mk(genLeadingZero(rng), genLeadingZero(rng)),   // P1 leading-zero hashes, everywhere
+		mk(gen32(rng), gen32(rng)),                     // P2 commit only from stBoundary on, never acked
+		mk(gen32(rng), gen32(rng)),                     // P3 in stOld only (deleted later)
 		mkSlot(append([]byte{}, v0...), gen32(rng), 2), // P4 same commitment value as P0, everywhere; its ACK slot hash has a leading zero byte
-		mk(make([]byte, 32), genLeadingZero(rng)),     // P5 all-zero commitment
-		mkSlot(gen32(rng), gen32(rng), 1),             // P6 everywhere; its COMMITMENT slot hash has a leading zero byte
-		mk(genLeadingZero(rng), gen32(rng)),           // P7 random presence
-		mk(gen32(rng), append([]byte{}, v0...)),       // P8 random presence; ack equals P0's commitment
+		mk(make([]byte, 32), genLeadingZero(rng)),      // P5 all-zero commitment
+		mkSlot(gen32(rng), gen32(rng), 1),              // P6 everywhere; its COMMITMENT slot hash has a leading zero byte
+		mk(genLeadingZero(rng), gen32(rng)),            // P7 random presence
+		mk(gen32(rng), append([]byte{}, v0...)),        // P8 random presence; ack equals P0's commitment
 	}
 	w.absent = mk(gen32(rng), gen32(rng))
 	nExtra := rng.Intn(4)
